@@ -321,6 +321,42 @@ def overlay(kind: str) -> dict[str, str]:
                     return not (n1 & n2)
             new = ast.unparse(ast.fix_missing_locations(
                 S().visit(ast.parse(text)))) + '\n'
+        elif kind == 'guard':
+            class G(ast.NodeTransformer):
+                """guard clauses: a trailing `if X: body` (no else) at the
+                end of a function body becomes `if not X: return` followed
+                by the body; at the end of a loop body, `if not X:
+                continue` followed by the body."""
+
+                @staticmethod
+                def _neg(t):
+                    if isinstance(t, ast.UnaryOp) and isinstance(
+                            t.op, ast.Not):
+                        return t.operand
+                    return ast.UnaryOp(ast.Not(), t)
+
+                def _tail(self, body, leave):
+                    last = body[-1]
+                    if isinstance(last, ast.If) and not last.orelse:
+                        g = ast.If(test=self._neg(last.test), body=[leave],
+                                   orelse=[])
+                        return body[:-1] + [ast.copy_location(
+                            g, last)] + last.body
+                    return body
+
+                def _fn(self, n):
+                    self.generic_visit(n)
+                    n.body = self._tail(n.body, ast.Return(value=None))
+                    return n
+                visit_FunctionDef = visit_AsyncFunctionDef = _fn
+
+                def _loop(self, n):
+                    self.generic_visit(n)
+                    n.body = self._tail(n.body, ast.Continue())
+                    return n
+                visit_For = visit_While = visit_AsyncFor = _loop
+            new = ast.unparse(ast.fix_missing_locations(
+                G().visit(ast.parse(text)))) + '\n'
         elif kind == 'flip':
             class F(ast.NodeTransformer):
                 """`if X: A else: B` -> `if not X: B else: A` (elif chains
@@ -413,7 +449,7 @@ def main() -> int:
         'unparse', 'logging', 'format']
     if kinds == ['all']:
         kinds = ['unparse', 'logging', 'format', 'rename', 'hoist', 'flip',
-                 'annot', 'swap']
+                 'annot', 'swap', 'guard']
     props = [a for a in sys.argv[1:] if a.startswith('C')] or PROPS
     bad = 0
     for kind in kinds:
